@@ -71,6 +71,11 @@ CHECKS = {
          "Scripts of 1..6 steps (5 methods x routed/unrouted/CORS/echo/empty/70 KB/panicking targets x Connection absent/close/keep-alive in four letter cases x HTTP/1.0|1.1 x Content-Length bodies incl. request-looking and >8 KiB ones x 7 malformed kinds x idle past the timeout), pool size 1..4, delivered per request / byte-wise / in random segments, with sequential or pipelined boundaries, run against a real threaded App. A reference model predicts every response: status, echoed version, one IMF-fixdate Date, Server, exactly the route's CORS headers, Content-Length framing equal to the body, the body itself (which restates the request the handler saw), 400/408 + close, EOF without bytes for a panicking handler; whether the connection stays open is decided by a follow-up request that must (or must not) be answered; the handlers' dispatch log must equal the well-formed routed requests sent. After panics new connections and N simultaneous keep-alive connections on an N-thread pool must still be served.",
          "Trusts the reference model and response parser; the kernel may coalesce client segments (weakens coverage only). Known findings tolerated and counted: stray CRLF after bodies (K2) and loss of pipelined read-ahead bytes (K1; tails after a pipelined boundary are judged leniently: only exact later responses in order or 400s). Threaded runtime only so far.",
          "DESIGN.md §5 C01"),
+ "C09": ("fault_enumeration",
+         "fault enumeration (every valid upstream response cut at every byte offset) + proptest generation of requests / upstream behaviours against a scripted loopback upstream; oracle = strict reference response parser on the bytes actually sent, reference request parser on the bytes received, deadline; model-based load-balancer sequences",
+         "Generated valid upstream responses (every modelled status; Content-Length, chunked, close-delimited) are each cut at every byte offset and closed (exhaustive per response), and random cases add segmented delivery, garbage, header-malformed, bare-LF, unmodelled status, refused, accept-then-close, accept-then-silence, stall mid-response and 50 ms trickle upstreams, through proxy_request and the server's proxy_handler. The call must return (no panic), within timeout + active sending time + 2 s, the upstream's status/headers/body when what the upstream sent is a complete valid response by the reference parser and 502 otherwise; the upstream must have received the client's request (prefix stripped for proxy_handler) plus one X-Forwarded-For = origin address. LoadBalancer::select_target: strict rotation single-threaded, exact fairness with 1..8 threads, random stays in the set.",
+         "Trusts the reference parsers and the scripted upstream; ambiguous cut zones (close-delimited bodies, after a chunked body's terminal 0 CRLF) accept either reading; proxy_handler's 5 s timeout is hard-coded so only a few stall cases go through it.",
+         "DESIGN.md §5 C09"),
 }
 
 NOT_YET = "check not built yet (work in progress; see DESIGN.md §5 for the intended design)"
